@@ -249,6 +249,20 @@ def check_case(ctx, obs, ens):
     except Exception as e:
         ctx.violation("crps:raised:shift-scale:%s" % type(e).__name__, case, "shifted/scaled call raised %r" % (e,))
         return
+    # scaling by very small / very large powers of two (exact): "scales linearly with a positive factor"
+    # must not depend on the unit of the data (absolute thresholds in the kernel would show here)
+    for sname, f in (("2^-40", 2.0 ** -40), ("2^40", 2.0 ** 40)):
+        try:
+            rbig = call_impl([v * f for v in obs], [[v * f for v in row] for row in ens])[0]
+        except Exception as e:
+            ctx.violation("crps:raised:scale:%s" % sname, case, "call scaled by %s raised %r" % (sname, e))
+            continue
+        ctx.count("relation.scale-extreme")
+        for k, a, c in zip(COMPS, r, rbig):
+            if not (abs(c - f * a) <= TOL * f * max(1.0, abs(a))):
+                ctx.violation("crps:scale:%s:%s" % (sname, k), case,
+                              "%s = %r, but %r (expected %r) after multiplying observations and members by %s" % (k, a, c, f * a, sname),
+                              observed=c, expected=f * a)
     for k, a, b, c in zip(COMPS, r, rsft, rscl):
         if not close(b, a):
             ctx.violation("crps:shift:%s" % k, case, "%s = %r, but %r after adding 2.5 to observations and members" % (k, a, b),
